@@ -320,15 +320,27 @@ impl<K: KeyT, V: ValT> World<K, V> {
                     }
                 }
             }
-            Op::FromIter { m, items } => {
+            Op::FromIter { m, items, hint } => {
                 let mi = *m as usize;
+                let hint = *hint;
                 let items: &Vec<(u32, u32)> = &items.iter().map(|&(k, p)| (k, V::norm(p))).collect();
                 let h = self.cfg.map_hashers[mi].clone();
                 ctx::with(|c| c.default_hasher = (h.seed, h.mode as u8));
                 let objs: Vec<(K, V)> = items.iter().map(|&(kv, p)| (K::make(kv), V::make(p))).collect();
                 let ids: Vec<(u64, u64)> = objs.iter().map(|(k, v)| (k.oid(), v.oid())).collect();
-                let co = call(|| sut(|| objs.into_iter().collect::<Map<K, V>>()));
+                let co = call(|| {
+                    if hint == 0 {
+                        sut(|| objs.into_iter().collect::<Map<K, V>>())
+                    } else {
+                        sut(|| LyingIter { inner: objs.into_iter(), hint }.collect::<Map<K, V>>())
+                    }
+                });
                 match co.result {
+                    Err(pn) if hint == 3 => {
+                        // a collection of usize::MAX elements cannot be pre-sized: documented panic;
+                        // the slot keeps its old map
+                        self.handle_panic(acc, pn, &["capacity-overflow"]);
+                    }
                     Ok(newmap) => {
                         let slot = &mut self.maps[mi];
                         let old = std::mem::replace(&mut slot.m, newmap);
